@@ -161,6 +161,8 @@ Proof.
   rewrite src_conversion_for1_eq. unfold conv_warns.
   destruct (flag_warns inf (d_conv d) (d_flags d)) as [w1|]; cbn [fbind obind_opt]; [|reflexivity].
   cbv zeta. rewrite !fbind_if_app.
+  (* operand order of the two flag-pair tests does not matter *)
+  rewrite ?(andb_comm (counter_mem 48 (d_flags d)) (counter_mem 45 (d_flags d))), ?(andb_comm (counter_mem 32 (d_flags d)) (counter_mem 43 (d_flags d))).
   (* width *)
   unfold of_width. destruct (d_var_width d) eqn:Hvw; csimp;
     [ add_var_step; rewrite ?ftry_index | destruct (d_width d >? i_ssize_max inf)%Z ]; csimp; try reflexivity.
